@@ -125,7 +125,12 @@ impl ElementRaw {
                                             );
                                         }
                                     }
-                                    model_locked.reference_origins.insert(refpath_new, reflist);
+                                    // other references may already use the new path: keep them
+                                    model_locked
+                                        .reference_origins
+                                        .entry(refpath_new)
+                                        .or_default()
+                                        .extend(reflist);
                                 }
                             }
                         }
@@ -840,7 +845,12 @@ impl ElementRaw {
                             ref_element.0.write().set_character_data(refstr.clone(), version)?;
                         }
                     }
-                    model_locked.reference_origins.insert(refstr, ref_elements);
+                    // other references may already use the new path: keep them
+                    model_locked
+                        .reference_origins
+                        .entry(refstr)
+                        .or_default()
+                        .extend(ref_elements);
                 }
             }
         }
